@@ -11,6 +11,10 @@ from ..model import AnalysisError
 from .. import purity
 from . import motion
 
+# loops the engines summarise on purpose (retry / pause / enumeration loops are judged by the
+# loop rules of this check, not by unrolling)
+EXPECTED_GAPS = {('loop', '*')}
+
 V = Sym.var
 MUTATORS = {'append', 'extend', 'insert', 'sort', 'reverse', 'remove', 'clear', '__setitem__',
             'add', 'update'}
